@@ -275,6 +275,75 @@ fn op_validate(c: &Case, out: &mut Out) {
     }
 }
 
+/// a history of public builder calls on DerivesRegistry / TypeSubstitutes; prints per-call results and the final state
+fn op_builders(c: &Case, out: &mut Out) {
+    use scale_typegen::typegen::settings::substitutes::absolute_path;
+    let mut d = scale_typegen::DerivesRegistry::new();
+    let mut subs = scale_typegen::TypeSubstitutes::new();
+    let p = |x: &str| -> syn::Path { syn::parse_str(x).expect("path") };
+    // `Foo(A, B)` style arguments only parse in bound position
+    let parse_path = |x: &str| -> Result<syn::Path, syn::Error> {
+        if x.contains('(') && !x.contains("<(") { syn::parse_str::<syn::TraitBound>(x).map(|b| b.path) } else { syn::parse_str::<syn::Path>(x) }
+    };
+    let attr = |x: &str| -> syn::Attribute {
+        let ts: proc_macro2::TokenStream = x.parse().unwrap();
+        syn::parse_quote!(#[#ts])
+    };
+    for call in get_all(c, "call") {
+        let (k, rest) = call.split_once(' ').unwrap_or((call, ""));
+        let pair = |r: &str| -> (String, String) {
+            let (a, b) = r.split_once(" => ").expect("a => b");
+            (a.to_string(), b.to_string())
+        };
+        let res: Result<(), String> = match k {
+            "derive_all" => { d.add_derives_for_all([p(rest)]); Ok(()) }
+            "attr_all" => { d.add_attributes_for_all([attr(rest)]); Ok(()) }
+            "derive_for" | "derive_rec" => { let (a, b) = pair(rest); d.add_derives_for(syn::parse_str(&a).unwrap(), [p(&b)], k == "derive_rec"); Ok(()) }
+            "attr_for" | "attr_rec" => { let (a, b) = pair(rest); d.add_attributes_for(syn::parse_str(&a).unwrap(), [attr(&b)], k == "attr_rec"); Ok(()) }
+            "insert" | "insert_if_absent" => {
+                let (a, b) = pair(rest);
+                match parse_path(&a) {
+                    Err(_) => Err("SourceDoesNotParse".to_string()),
+                    Ok(src) => match parse_path(&b) {
+                        Err(_) => Err("TargetDoesNotParse".to_string()),
+                        Ok(tp) => match absolute_path(tp) {
+                            Err(e) => Err(format!("{:?}", e.kind)),
+                            Ok(to) => {
+                                let r = if k == "insert" { subs.insert(src, to) } else { subs.insert_if_not_exists(src, to) };
+                                r.map_err(|e| format!("{:?}", e.kind))
+                            }
+                        },
+                    },
+                }
+            }
+            "extend" => {
+                let mut elems = vec![];
+                let mut early: Option<String> = None;
+                for part in rest.split(" ;; ") {
+                    let (a, b) = pair(part);
+                    let (Ok(sp), Ok(tp)) = (parse_path(&a), parse_path(&b)) else { early = Some("DoesNotParse".into()); break; };
+                    match absolute_path(tp) {
+                        Ok(to) => elems.push((sp, to)),
+                        Err(e) => { early = Some(format!("{:?}", e.kind)); break; }
+                    }
+                }
+                match early { Some(e) => Err(e), None => subs.extend(elems).map_err(|e| format!("{:?}", e.kind)) }
+            }
+            _ => panic!("unknown builder call {k}"),
+        };
+        out.put("res", match res { Ok(()) => "ok".to_string(), Err(e) => format!("err:{e}") });
+    }
+    let set = |s: &std::collections::HashSet<syn::Path>| { let mut v: Vec<String> = s.iter().map(show).collect(); v.sort(); v.join(",") };
+    let aset = |s: &std::collections::HashSet<syn::Attribute>| { let mut v: Vec<String> = s.iter().map(show).collect(); v.sort(); v.join(",") };
+    out.put("default", format!("{}|{}", set(d.default_derives().derives()), aset(d.default_derives().attributes())));
+    let mut v: Vec<String> = d.derives_on_specific_types().map(|(p, x)| format!("{}|{}|{}", show(p), set(x.derives()), aset(x.attributes()))).collect();
+    v.sort();
+    out.put("typed", v.join(";"));
+    let mut s: Vec<String> = subs.iter().map(|(k, v)| format!("{}=>{}", k.join("::"), show(v.path()))).collect();
+    s.sort();
+    out.put("subs", s.join(";"));
+}
+
 fn run_case(c: &Case, out: &mut Out) {
     match get(c, "op").unwrap_or("") {
         "fmt" => op_fmt(c, out),
@@ -283,6 +352,7 @@ fn run_case(c: &Case, out: &mut Out) {
         "gen" => op_gen(c, out),
         "standalone" => op_standalone(c, out),
         "validate" => op_validate(c, out),
+        "builders" => op_builders(c, out),
         "corpus" => {
             use parity_scale_codec::Encode;
             for (name, reg) in corpus::all() {
